@@ -1352,10 +1352,12 @@ func constructionValues(recvT types.Type, field int) (out []callerVal, ok bool) 
 	if m, done := constructionMemo[key]; done {
 		return m.vals, m.ok
 	}
-	defer func() { constructionMemo[key] = struct {
-		vals []callerVal
-		ok   bool
-	}{out, ok} }()
+	defer func() {
+		constructionMemo[key] = struct {
+			vals []callerVal
+			ok   bool
+		}{out, ok}
+	}()
 	ok = true
 	for _, fn := range curWorld.pkgFuncs() {
 		instrsOf(fn, func(in ssa.Instruction) {
